@@ -48,7 +48,7 @@ func Run(ctx *vrun.Ctx, prop string) error {
 			models = []ModelCfg{
 				{Name: "deliver3", N: 3, Works: "{1,2}", Flaws: allFlaws, Dups: true, Graph: true, Catalogue: true},
 				{Name: "deliver4", N: 4, Works: "{1,2}", Flaws: allFlaws, Graph: true, MaxPaths: 200000, Catalogue: true},
-				{Name: "deliver5", N: 5, Works: "{1,2}", Flaws: allFlaws},
+				{Name: "deliver5", N: 5, Works: "{1}", Flaws: allFlaws},
 				{Name: "hdrfirst3", N: 3, Works: "{1,2}", Flaws: allFlaws, Headers: true, Graph: true, MaxPaths: 150000, Catalogue: true},
 				{Name: "deliver3b", N: 3, Works: "{1,2}", Flaws: allFlaws, Graph: true, Catalogue: true, BIP34: true},
 				{Name: "hdrfirst3b", N: 3, Works: "{1}", Flaws: allFlaws, Headers: true, Graph: true, MaxPaths: 60000, Catalogue: true, BIP34: true},
